@@ -1009,6 +1009,9 @@ impl SQLExpression for sql_ast::Expr {
 
             sql_ast::Expr::IsNull(_) | sql_ast::Expr::IsNotNull(_) => 5,
 
+            // `x BETWEEN a AND b` and `x IN (..)` bind like comparisons
+            sql_ast::Expr::Between { .. } | sql_ast::Expr::InList { .. } => 6,
+
             // all other items types bind stronger (function calls, literals, ...)
             _ => 20,
         }
